@@ -45,6 +45,10 @@ pub fn order_menu() -> Vec<(String, String)> {
         (az(41), "za".into()),
         ("ab".into(), az(41)),
         ("zzzzzzzzzzzzzzzzzzzzzzzzz".into(), "z".into()),
+        // the same second operand twice in a row, the first time against an empty first operand
+        ("".into(), "mail".into()),
+        ("mall".into(), "mail".into()),
+        ("mail".into(), "".into()),
     ]
 }
 
@@ -103,6 +107,14 @@ pub fn laws(shared: &Jaccard<char>, a: &[char], b: &[char]) -> Result<f64, (&'st
     if v != s {
         return Err(("order-or-repetition-matters", format!("s(a,b)={} s(reverse a, b+b)={}", s, v)));
     }
+    // the same operand again right after a call with an empty partner (either side)
+    let _ = shared.similarity(&[], b);
+    let again = shared.similarity(a, b);
+    let _ = shared.similarity(a, &[]);
+    let again2 = shared.similarity(a, b);
+    if again != s || again2 != s {
+        return Err(("depends-on-earlier-calls", format!("s(a,b)={} but {} after s([],b) and {} after s(a,[])", s, again, again2)));
+    }
     let rd = shared.rel_dist(a, b);
     if rd != 1.0 - s {
         return Err(("rel-dist", format!("rel_dist {} but 1 - similarity = {}", rd, 1.0 - s)));
@@ -149,7 +161,7 @@ impl Prop for C17 {
         vec![
             Dom::new(format!("pairs:seqs<={}over{{a,b,c,d}}", self.n), self.seqs.len() as u64, 16).note("case = first sequence; inner loop = every second sequence; one reused instance per worker thread"),
             Dom::new("long-families", self.long.len() as u64, 4).note("lengths 0,1,19..22,39..41,64 x 5 shapes (heavy repetition), all ordered pairs"),
-            Dom::new(format!("call-orders<={}", self.tier.pick(3, 4)), seqs_len(m, 1, self.tier.pick(3, 4)), 400).note("every sequence of <= 3 similarity calls on ONE fresh instance from a 16-pair menu (long-then-short included)"),
+            Dom::new(format!("call-orders<={}", self.tier.pick(3, 4)), seqs_len(m, 1, self.tier.pick(3, 4)), 400).note("every sequence of <= 3 similarity calls on ONE fresh instance from a 19-pair menu (long-then-short included)"),
         ]
     }
     fn run(&self, dom: usize, idx: u64, cx: &mut Cx) {
@@ -201,7 +213,7 @@ impl Prop for C17 {
         }
     }
     fn rule(&self) -> String {
-        "(i) all ordered pairs of sequences up to the bound over {a,b,c,d} (incl. empty) on one reused instance per worker: equals |A∩B|/|A∪B| computed with BTreeSet, in [0,1], symmetric, unchanged by reversing one argument and doubling the other, equal to a fresh instance, rel_dist = 1 - similarity; (ii) all pairs of long repetitive families around the buffer capacity 20; (iii) every sequence of <= 3 calls on one instance from a 16-pair menu. Non-trivial = similarity strictly between 0 and 1.".into()
+        "(i) all ordered pairs of sequences up to the bound over {a,b,c,d} (incl. empty) on one reused instance per worker: equals |A∩B|/|A∪B| computed with BTreeSet, in [0,1], symmetric, unchanged by reversing one argument and doubling the other, equal to a fresh instance, rel_dist = 1 - similarity; (ii) all pairs of long repetitive families around the buffer capacity 20; (iii) every sequence of <= 3 calls on one instance from a 19-pair menu. Non-trivial = similarity strictly between 0 and 1.".into()
     }
     fn assumptions(&self) -> Vec<String> {
         vec![
